@@ -20,7 +20,7 @@ func c02Check(c pairCase) fw.Outcome {
 	}
 	label := fmt.Sprintf("%s-%s/%s/%v", A.K, B.K, contactClass(A, B), want)
 	nt := boxesIntersect(A, B)
-	if !want && shapeHash(A)%8 == 0 {
+	if !want && (shapeHash(A)^shapeHash(B))%32 == 0 {
 		if q := gridRefute(A, B, func(q exact.Q) bool { return A.Member(q) && B.Member(q) }); q != nil {
 			return fw.Outcome{Infra: "oracle self-check: intersects=false but grid point " + q.String() + " is in both sets"}
 		}
@@ -45,6 +45,12 @@ func c02Check(c pairCase) fw.Outcome {
 	}
 	oa, ob := adapt.Obj(A, c.EA, 0), adapt.Obj(B, c.EB, 0)
 	calls = append(calls, call{"object A.Intersects(B)", oa.Intersects(ob)}, call{"object B.Intersects(A)", ob.Intersects(oa)})
+	if shapePoints(A) >= 60 || shapePoints(B) >= 60 {
+		// both operands translated through Move (indexed shapes must keep answering)
+		dx, dy := adapt.F(7, c.EA.Scale), adapt.F(-3, c.EA.Scale)
+		ma, mb := moveGeom(pl.ga, dx, dy), moveGeom(pl.gb, dx, dy)
+		calls = append(calls, call{"after Move of both: A.Intersects(B)", adapt.Call("intersects", ma, mb)}, call{"after Move of both: B.Intersects(A)", adapt.Call("intersects", mb, ma)})
+	}
 	for _, cl := range calls {
 		if cl.got != want {
 			return fw.Failf(label, "%s = %v, exact %v;%s; %s", cl.name, cl.got, want, ws, pairString(&c))
